@@ -45,6 +45,7 @@ type Report struct {
 	start    time.Time
 	curRule  string
 	curEng   string
+	included bool // this report is being built for Include
 }
 
 func NewReport(prop, tier string, w *World) *Report {
@@ -247,4 +248,85 @@ func (r *Report) Finish(verifDir string, meta propMeta, seed int, selftest any) 
 		return 1
 	}
 	return 0
+}
+
+// Include runs another property's rule function on the same world and adopts the obligations of the listed rule ids
+// (all of them if none is listed) under this property: mechanisms shared by several properties (the signer shuffle, the DE
+// queue arithmetic, the active-tunnel flag/index pair …) are decided by one set of rules, evaluated wherever they matter.
+func (r *Report) Include(other string, ruleIDs ...string) {
+	pf, ok := props[other]
+	if !ok {
+		r.Rule(r.Property+".include", "include")
+		r.Unres("include|"+other, "included rules of "+other+" exist", "unknown property")
+		return
+	}
+	if r.included {
+		return // no transitive includes
+	}
+	sub := NewReport(other, r.Tier, r.W)
+	sub.included = true
+	func() {
+		defer func() {
+			if e := recover(); e != nil {
+				sub.Rule(other+".internal", "engine")
+				sub.Unres("panic", "the engines run to completion", fmt.Sprintf("engine panic in included %s: %v", other, e))
+			}
+		}()
+		pf(sub)
+	}()
+	want := map[string]bool{}
+	for _, id := range ruleIDs {
+		want[id] = true
+	}
+	n := 0
+	for _, o := range sub.Obls {
+		if len(want) > 0 && !want[o.Rule] && !strings.HasSuffix(o.Rule, ".internal") {
+			continue
+		}
+		c := *o
+		c.Rule = r.Property + ".via." + o.Rule
+		c.Key = r.Property + ".via." + o.Key
+		r.Obls = append(r.Obls, &c)
+		n++
+	}
+	if n == 0 {
+		r.Rule(r.Property+".include", "include")
+		r.Unres("include|"+other+"|"+strings.Join(ruleIDs, ","), "included rules of "+other+" produce obligations", "no obligation adopted (rule ids changed?)")
+	}
+}
+
+// AnyOf: a disjunction of rule groups. Each alternative is evaluated on a scratch report; the obligation is discharged
+// if at least one alternative discharges all of its obligations. Used where the property rests on "A or B" and each of A,
+// B may legitimately be given up as long as the other holds (two cooperating edits, each harmless alone).
+func (r *Report) AnyOf(key, desc string, alts map[string]func(sub *Report)) {
+	var failed []string
+	for _, name := range sortedKeys(alts) {
+		sub := NewReport(r.Property, r.Tier, r.W)
+		sub.included = true
+		sub.Rule(r.curRule, r.curEng)
+		func() {
+			defer func() {
+				if e := recover(); e != nil {
+					sub.Unres("panic", desc, fmt.Sprintf("engine panic: %v", e))
+				}
+			}()
+			alts[name](sub)
+		}()
+		ok := len(sub.Obls) > 0
+		why := ""
+		for _, o := range sub.Obls {
+			if o.status != Discharged {
+				ok = false
+				if why == "" {
+					why = o.Key + ": " + clip(o.Detail, 140)
+				}
+			}
+		}
+		if ok {
+			r.OK(key, desc, "-", "holds through alternative ["+name+"]")
+			return
+		}
+		failed = append(failed, "["+name+"] fails: "+why)
+	}
+	r.Bad(key, desc, "-", "every alternative fails: "+strings.Join(failed, "; "))
 }
